@@ -168,6 +168,41 @@ def _append(e: ast.AST, p: _Path, f) -> None:
             p.appended.append(sid)
 
 
+def _check_empty_only(ctx) -> None:
+    """`if len(xs) <op> k: return` at the top of a pass: every pass establishes something for each non-empty input (a label on the
+    first statement, a subroutine per block), so the early exit is sound only for the empty list.  The test is evaluated for
+    lengths 0..4."""
+    import operator
+
+    ops = {ast.Eq: operator.eq, ast.NotEq: operator.ne, ast.Lt: operator.lt, ast.LtE: operator.le, ast.Gt: operator.gt, ast.GtE: operator.ge}
+    for f in ctx.p.module(LIN).functions.values():
+        params = set(f.param_names())
+        for st in f.node.body:
+            if not (isinstance(st, ast.If) and not st.orelse and len(st.body) == 1 and isinstance(st.body[0], ast.Return)):
+                continue
+            t = st.test
+            if not (isinstance(t, ast.Compare) and len(t.ops) == 1 and type(t.ops[0]) in ops):
+                continue
+            a, b = t.left, t.comparators[0]
+            flipped = False
+            if isinstance(a, ast.Constant):
+                a, b, flipped = b, a, True
+            if not (isinstance(a, ast.Call) and dotted_of(a.func) == "len" and len(a.args) == 1 and isinstance(a.args[0], ast.Name) and a.args[0].id in params
+                    and isinstance(b, ast.Constant) and isinstance(b.value, int)):
+                continue
+            rv = st.body[0].value
+            trivial = rv is None or (isinstance(rv, ast.Constant) and rv.value in ("", None)) or (isinstance(rv, (ast.List, ast.Tuple)) and not rv.elts)
+            if not trivial:
+                continue
+            fn = ops[type(t.ops[0])]
+            holds = [n for n in range(5) if (fn(b.value, n) if flipped else fn(n, b.value))]
+            what = f"{f.name}: early return under `{short(t)}`"
+            if holds == [0]:
+                ctx.ok("EMPTY-ONLY", f, st, what=what)
+            else:
+                ctx.fail("EMPTY-ONLY", f, st, f"{f.name} returns early, without doing its work, when `{short(t)}`, which holds for lengths {holds} (of 0..4), not only for the empty list: a one-element flow keeps an unlabelled first statement / is not emitted", construct=what)
+
+
 def run(ctx) -> None:
     p = ctx.p
     ctx.rule("LABEL-ARITH", "forward references resolve to attached labels; the returned next label is fresh (symbolic execution per path)", floor=10)
@@ -176,6 +211,13 @@ def run(ctx) -> None:
     ctx.rule("SEQ", "linearize -> compress -> fix labels -> split", floor=1)
     ctx.rule("LABEL-REWIRE", "labels are set only when unset, unset only after re-mapping, and re-mapped to labels that survive", floor=5)
     _check_label_rewiring(ctx)
+    ctx.rule("TRUTHY", "no Optional[int] label is tested by truthiness (label 0 is a label, not absence)", floor=1)
+    from ..rules import truthy as _truthy
+    _truthy.positive_control(ctx, "TRUTHY")
+    for _f in p.module(LIN).functions.values():
+        _truthy.check_truthy(ctx, _f, "TRUTHY")
+    ctx.rule("EMPTY-ONLY", "the size tests that let a pass of the linearisation return early hold for the empty list only", floor=3)
+    _check_empty_only(ctx)
     m = p.module(LIN)
     n_funcs = 0
     for name, f in m.functions.items():
